@@ -326,3 +326,31 @@ CHECKS['C18'] = dict(
     min_counters={'quick': {'nlsf_vectors': 200000, 'nlsf_interpolations': 800000, 'gain_chains_checked': 500000, 'gain_quant_roundtrips': 49152, 'pitch_combinations': 6000000, 'hook_silk_frames_observed': 20000, 'hook_voiced_frames': 2000, 'nlsf_encodes': 20000, 'live_gain_quants': 20000},
                   'thorough': {'nlsf_vectors': 50000000}},
 )
+
+C11_WRAPS = ['malloc', 'free']
+CHECKS['C11'] = dict(
+    level='exploration',
+    rule="ctl: per encoder (random Fs/channels/application) 120 steps mixing encode calls, sets of every documented request with values from a "
+         "grid (all legal values, boundaries +-1, INT_MIN/INT_MAX, sentinels, other requests' constants), NULL getters and unknown request "
+         "numbers; a full getter snapshot is taken before and after every call; then the decoder requests. msctl: the same through surround "
+         "(families 0/1/255) and projection encoders with per-stream snapshots, multistream decoder gain fan-out, stream-index validation. "
+         "create: every object kind with legal/illegal (Fs, channels, application) and a countdown allocation fault on every allocation. "
+         "honour: 10..50 packet histories with settings fixed before the first frame (forced/max bandwidth, forced channels, expert frame "
+         "duration or per-call size, application, forced mode) and other settings and the forced channel count changing mid-stream. Distinct "
+         "= (request, legal, after-encode, channels, value class / family / TOC, forced channels, bandwidth limits, application).",
+    assumptions=COMMON_ASSUME + ["packets with no coded audio (every frame <= 1 byte: DTX and the low-budget fallback) are exempt from the channel / bandwidth / mode clauses and do not count towards the three-packet latency",
+                                 "OPUS_SET_APPLICATION may be refused after the first frame (then nothing may change)",
+                                 "AUTO / MAX bitrate read-back is accepted for any legal frame size (the resolution uses the last coded frame size)"],
+    evals_counter=None,
+    runs=[
+        dict(h='h_c11.c', mode='ctl', flavour='asan', n={'quick': 1600, 'thorough': 40000}, wraps=C11_WRAPS),
+        dict(h='h_c11.c', mode='msctl', flavour='asan', n={'quick': 800, 'thorough': 20000}, wraps=C11_WRAPS),
+        dict(h='h_c11.c', mode='create', flavour='prod', n={'quick': 3200, 'thorough': 60000}, wraps=C11_WRAPS),
+        dict(h='h_c11.c', mode='honour', flavour='asan', n={'quick': 1600, 'thorough': 40000}, wraps=C11_WRAPS),
+        dict(h='h_c11.c', mode='honour', flavour='prod', n={'quick': 3200, 'thorough': 80000}, wraps=C11_WRAPS),
+        dict(h='h_c11.c', mode='ctl', flavour='asan-fixed', n={'quick': 320, 'thorough': 8000}, wraps=C11_WRAPS),
+    ],
+    min_nontrivial={'quick': 1000, 'thorough': 2000},
+    min_counters={'quick': {'ctl_sets': 100000, 'ctl_illegal_refused': 30000, 'ctl_legal_readback_ok': 30000, 'msctl_sets': 30000, 'alloc_faults_reported': 3000, 'honour_packets': 100000, 'honour_forced_channels_ok': 10000},
+                  'thorough': {'ctl_sets': 2000000}},
+)
